@@ -54,6 +54,8 @@ impl VaultView {
 impl VaultWorld {
     pub fn build(cfg: &VaultCfg) -> Result<VaultWorld, String> {
         let mut w = World::new_with_fund(&V_USERS, &["uvvv", "uother"], V_FUND);
+        w.add_account("collector-two");
+        w.add_account("collector-three");
         w.setup_vault_network();
         let info = if cfg.cw20 {
             let t = w.create_cw20_with_fund("vtok", 6, V_FUND);
@@ -205,6 +207,74 @@ impl VaultWorld {
         self.w.cw20_send(who, &lp, &v, shares, &vault::Cw20HookMsg::Withdraw {})
     }
 
+    /// Re-points the vault's fee collector through the factory; on success `self.collector` follows.
+    pub fn set_collector(&mut self, addr: &Addr) -> ExecResult {
+        let r = self.update(vault::UpdateConfigParams {
+            flash_loan_enabled: None,
+            deposit_enabled: None,
+            withdraw_enabled: None,
+            new_owner: None,
+            new_vault_fees: None,
+            new_fee_collector_addr: Some(addr.to_string()),
+        });
+        if r.is_ok() {
+            self.collector = addr.clone();
+        }
+        r
+    }
+
+    /// Deposit declaring `amount` but attaching / approving something else (see VOp::DepositMismatch).
+    pub fn deposit_mismatch(&mut self, who: &Addr, amount: u128, mode: u8) -> ExecResult {
+        let vaultaddr = self.vault.clone();
+        let given = match mode {
+            1 => amount.saturating_sub(1),
+            2 => amount / 2,
+            3 => 0,
+            4 => amount.saturating_add(1),
+            _ => amount,
+        };
+        let msg = vault::ExecuteMsg::Deposit { amount: Uint128::new(amount) };
+        match &self.info {
+            AssetInfo::NativeToken { denom } => {
+                let d = if mode == 5 { "uother".to_string() } else { denom.clone() };
+                let funds = if given > 0 { vec![coin(given, d)] } else { vec![] };
+                self.w.exec(who, &vaultaddr, &msg, &funds)
+            }
+            AssetInfo::Token { contract_addr } => {
+                let t = Addr::unchecked(contract_addr);
+                let cur: cw20::AllowanceResponse = self
+                    .w
+                    .query(&t, &cw20::Cw20QueryMsg::Allowance { owner: who.to_string(), spender: vaultaddr.to_string() })
+                    .unwrap_or(cw20::AllowanceResponse { allowance: Uint128::zero(), expires: cw20::Expiration::Never {} });
+                if !cur.allowance.is_zero() {
+                    let _ = self.w.exec(who, &t, &cw20::Cw20ExecuteMsg::DecreaseAllowance { spender: vaultaddr.to_string(), amount: cur.allowance, expires: None }, &[]);
+                }
+                if given > 0 {
+                    self.w.increase_allowance(who, &t, &vaultaddr, given);
+                }
+                self.w.exec(who, &vaultaddr, &msg, &[])
+            }
+        }
+    }
+
+    /// The cw20 Receive hook carrying `Withdraw {}` from somewhere else than the LP token.
+    pub fn forged_receive(&mut self, who: &Addr, via: u8, amount: u128) -> ExecResult {
+        let v = self.vault.clone();
+        let hook = cosmwasm_std::to_json_binary(&vault::Cw20HookMsg::Withdraw {}).unwrap();
+        match (&self.info, via) {
+            (AssetInfo::Token { contract_addr }, 1) => {
+                let t = Addr::unchecked(contract_addr);
+                self.w.cw20_send(who, &t, &v, amount, &vault::Cw20HookMsg::Withdraw {})
+            }
+            _ => self.w.exec(
+                who,
+                &v,
+                &vault::ExecuteMsg::Receive(vault::Cw20ReceiveMsg { sender: who.to_string(), amount: Uint128::new(amount), msg: hook }),
+                &[],
+            ),
+        }
+    }
+
     pub fn collect(&mut self, who: &Addr) -> ExecResult {
         let v = self.vault.clone();
         self.w.exec(who, &v, &vault::ExecuteMsg::CollectProtocolFees {}, &[])
@@ -303,6 +373,15 @@ pub enum VOp {
     /// adversarial: the direct `Withdraw {}` message (token-factory LP vaults) with one native coin
     /// (the vault asset's denom or an unrelated one) attached, sent to this cw20-LP vault
     WithdrawDirect { user: u8, other_denom: bool, amount: Uint128 },
+    /// Deposit whose attached funds (native) or allowance (cw20) differ from the declared amount:
+    /// mode 1 one unit short, 2 half, 3 nothing, 4 one unit more, 5 (native) the other denom instead
+    DepositMismatch { user: u8, amt: VAmt, mode: u8 },
+    /// adversarial: the cw20 Receive hook with a Withdraw message not coming from the LP token —
+    /// via 0: `Receive{..}` sent directly by the user; via 1: the vault asset's own cw20 `Send`
+    /// (cw20 vaults)
+    ForgedReceive { user: u8, via: u8, amount: Uint128 },
+    /// re-point the vault's fee collector: 0 the original collector, 1 / 2 two plain accounts
+    SetCollector { which: u8 },
 }
 
 #[derive(Clone, Debug, Serialize, Deserialize)]
@@ -410,6 +489,9 @@ pub fn vop(w_liq: u32, w_loan: u32, w_misc: u32, depth: u32) -> BoxedStrategy<VO
         w_misc => (0u8..4, vamt()).prop_map(|(user, amt)| VOp::Donate { user, amt }),
         1 => Just(VOp::AdvanceBlock),
         1 => (0u8..4, any::<bool>(), prop_oneof![Just(1u128), Just(1000), gen::amount(1, 1u128 << 70)]).prop_map(|(user, other_denom, a)| VOp::WithdrawDirect { user, other_denom, amount: Uint128::new(a) }),
+        1 => (0u8..5, vamt(), 1u8..6).prop_map(|(user, amt, mode)| VOp::DepositMismatch { user, amt, mode }),
+        1 => (0u8..4, 0u8..2, prop_oneof![Just(1u128), Just(1000), gen::amount(1, 1u128 << 70)]).prop_map(|(user, via, a)| VOp::ForgedReceive { user, via, amount: Uint128::new(a) }),
+        1 => (0u8..3).prop_map(|which| VOp::SetCollector { which }),
     ]
     .boxed()
 }
@@ -475,6 +557,7 @@ pub struct HistoryStats {
 /// judges the ledgers).
 pub fn run_history(c: &VCase, rec: &Rec, value_clauses: bool) -> Result<HistoryStats, Fail> {
     let mut vw = VaultWorld::build(&c.cfg).map_err(|e| Fail::new(format!("world build failed: {e}")))?;
+    let original_collector = vw.collector.clone();
     let mut st = HistoryStats::default();
     let mut fees = [c.cfg.fees[0].u128(), c.cfg.fees[1].u128(), c.cfg.fees[2].u128()];
     let mut first_deposit_done = false;
@@ -750,7 +833,18 @@ pub fn run_history(c: &VCase, rec: &Rec, value_clauses: bool) -> Result<HistoryS
             VOp::RouterLoan { user, amt, proceeds, nested } => {
                 let usr = vw.user(*user);
                 let amount = resolve(amt, before.balance, 0);
-                let pay = resolve(proceeds, before.balance / 16, 0);
+                let mut pay = resolve(proceeds, before.balance / 16, 0);
+                // proceeds given relative to a balance (a fifth of the cases) are placed on the boundary
+                // instead: exactly the fees of this loan, one unit less, one unit more
+                if let (VAmt::OfBalance(k), Ok(q)) = (proceeds, vw.payback(amount)) {
+                    let fees_total = q.payback_amount.u128().saturating_sub(amount);
+                    pay = (fees_total + (*k % 3) as u128).saturating_sub(1);
+                    rec.class(match *k % 3 {
+                        0 => "router_proceeds_one_below_fees",
+                        1 => "router_proceeds_exactly_fees",
+                        _ => "router_proceeds_one_above_fees",
+                    });
+                }
                 let router = vw.router.clone();
                 let mut msgs = vec![vw.purse_pay_msg(pay, &router)];
                 let mut loans = vec![amount];
@@ -790,6 +884,10 @@ pub fn run_history(c: &VCase, rec: &Rec, value_clauses: bool) -> Result<HistoryS
                     if nested.is_none() {
                         let q = quote.payback_amount.u128();
                         let b = quote.burn_fee.u128();
+                        ensure!(
+                            u(amount) + u(pay) >= u(q),
+                            "step {step}: router loan of {amount} succeeded although the proceeds {pay} do not cover the fees (payback {q})"
+                        );
                         // vault received exactly the quoted amount (burn fee then destroyed)
                         ensure!(
                             u(after.balance) + u(amount) + u(b) == u(before.balance) + u(q),
@@ -918,6 +1016,44 @@ pub fn run_history(c: &VCase, rec: &Rec, value_clauses: bool) -> Result<HistoryS
                 vw.w.advance(6_000_000_000, 1);
                 continue;
             }
+            VOp::SetCollector { which } => {
+                let to = match *which % 3 {
+                    0 => original_collector.clone(),
+                    1 => Addr::unchecked("collector-two"),
+                    _ => Addr::unchecked("collector-three"),
+                };
+                if vw.set_collector(&to).is_ok() {
+                    ok = true;
+                    rec.class("collector_repointed");
+                }
+            }
+            VOp::DepositMismatch { user, amt, mode } => {
+                let usr = vw.user(*user);
+                let amount = resolve(amt, before.balance, vw.w.bal(&vw.info, &usr)).min(1u128 << 110);
+                rec.class("deposit_mismatch_attempt");
+                if vw.deposit_mismatch(&usr, amount, *mode).is_ok() {
+                    ok = true;
+                    rec.class(&format!("deposit_mismatch_accepted_mode{mode}"));
+                    first_deposit_done = true;
+                }
+            }
+            VOp::ForgedReceive { user, via, amount } => {
+                let usr = vw.user(*user);
+                let lp_b = vw.w.cw20_balance(&vw.lp, &usr);
+                let supply_b = vw.w.cw20_supply(&vw.lp);
+                if vw.forged_receive(&usr, *via, amount.u128()).is_ok() {
+                    ok = true;
+                    rec.class("forged_receive_accepted");
+                    let lp_a = vw.w.cw20_balance(&vw.lp, &usr);
+                    let supply_a = vw.w.cw20_supply(&vw.lp);
+                    ensure!(
+                        supply_a >= supply_b || lp_a < lp_b,
+                        "step {step}: a Receive{{Withdraw}} hook not sent by the share token (via {via}, amount {amount}) burnt shares nobody gave up: supply {supply_b} -> {supply_a}, sender's shares {lp_b} -> {lp_a}"
+                    );
+                } else {
+                    rec.class("forged_receive_rejected");
+                }
+            }
             VOp::WithdrawDirect { user, other_denom, amount } => {
                 let usr = vw.user(*user);
                 let denom = if *other_denom { "uother" } else { "uvvv" };
@@ -958,7 +1094,7 @@ pub fn run_history(c: &VCase, rec: &Rec, value_clauses: bool) -> Result<HistoryS
             // deposits by cw20 set allowances in separate (successful) transactions; compare
             // everything except those when the deposit itself is rejected
             let now = vw.w.snapshot();
-            let is_cw20_deposit = c.cfg.cw20 && matches!(op, VOp::Deposit { .. } | VOp::DepositThenWithdraw { .. });
+            let is_cw20_deposit = c.cfg.cw20 && matches!(op, VOp::Deposit { .. } | VOp::DepositThenWithdraw { .. } | VOp::DepositMismatch { .. });
             if !is_cw20_deposit {
                 ensure!(
                     now == snap,
@@ -1006,6 +1142,7 @@ pub fn _unused(_: Asset, _: TResult) {}
 /// Applies operations to a vault world without judging them (used to reach arbitrary states for
 /// probes of other properties; C05/C06/C07 judge the same operations).
 pub fn apply_ops_unjudged(vw: &mut VaultWorld, ops: &[VOp]) {
+    let original_collector = vw.collector.clone();
     for op in ops {
         let bal = vw.w.bal(&vw.info, &vw.vault);
         match op {
@@ -1051,6 +1188,23 @@ pub fn apply_ops_unjudged(vw: &mut VaultWorld, ops: &[VOp]) {
                 let _ = vw.w.transfer(&usr, &v, &info, amount);
             }
             VOp::AdvanceBlock => vw.w.advance(6_000_000_000, 1),
+            VOp::SetCollector { which } => {
+                let to = match *which % 3 {
+                    0 => original_collector.clone(),
+                    1 => Addr::unchecked("collector-two"),
+                    _ => Addr::unchecked("collector-three"),
+                };
+                let _ = vw.set_collector(&to);
+            }
+            VOp::DepositMismatch { user, amt, mode } => {
+                let usr = vw.user(*user);
+                let amount = resolve(amt, bal, vw.w.bal(&vw.info, &usr)).min(1u128 << 110);
+                let _ = vw.deposit_mismatch(&usr, amount, *mode);
+            }
+            VOp::ForgedReceive { user, via, amount } => {
+                let usr = vw.user(*user);
+                let _ = vw.forged_receive(&usr, *via, amount.u128());
+            }
             VOp::WithdrawDirect { user, other_denom, amount } => {
                 let usr = vw.user(*user);
                 let v = vw.vault.clone();
